@@ -178,3 +178,12 @@ TEXT["C08"].update(engine="verus+kani",
 
 TEXT["C05"].update(note=TEXT["C05"]["note"].replace(" ICMPv6 (radv/icmppkt.rs parse*) is NOT yet under contract; its serialiser is (C17).", "") + " ICMPv6: radv/icmppkt.rs parse / parse_nd_rtr_* are under contract (unit icmpparse).",
     level=TEXT["C05"]["level"].replace("every LLDP Deserialise::from_wire.", "every LLDP Deserialise::from_wire, the ICMPv6 router solicitation/advertisement decoder (radv/icmppkt.rs parse*)."))
+
+TEXT["C12"].update(
+    technique=TEXT["C12"]["technique"] + "; Verus on the real erbium-net frame builder (packet.rs: partial_netsum, finish_netsum, Tail/Fragment incl. the Box-recursive chain, new_ethernet/new_ipv4/new_udp4, flatten) and an R9 slice of the reply-destination choice",
+    level=TEXT["C12"]["level"].replace("Thorough tier only, undecided when CBMC times out: whole-frame length/checksum harnesses.",
+        "Frame (Verus, unbounded, any payload up to 65507 octets): flatten(new_udp4(..)) == Ethernet header ++ IPv4 header (version 4, IHL 5, total length 28+n, TTL 1, protocol 17, addresses) ++ UDP header (ports, length 8+n) ++ the unmodified payload; "
+        "the IPv4 checksum field is the Internet checksum of the header and VERIFIES (lemma: re-summing gives all ones), likewise the UDP checksum over pseudo-header, header and data; partial_netsum == sum of big-endian words, finish_netsum == one's-complement fold; "
+        "the IPv4 destination is 255.255.255.255 exactly when the request's flags have bit 15 set, otherwise yiaddr."),
+    note="NOT decided: the fixed 236-octet header part of Dhcp::serialise (serialise_fixed padding/truncation against parse's null_terminated). A DHCP reply larger than 65507 octets would overflow the 16-bit length arithmetic of new_udp4/new_ipv4 (precondition of the frame contract; the send path does not bound the serialised size -- observation, DESIGN 8). "
+         "Assumed: the encoder's HashMap view m@ and the decoder's abstract table opts_view describe the same table; Serialise for u8 pushes the octet; slice::chunks; nix SockaddrIn accessors; derived Clone of Fragment structural. Defect D12b found here and fixed (649d304).")
